@@ -487,3 +487,9 @@ def r10(rr, repo):
                   key=f'topic-independent|{name}')
             rebound = sorted({n.id for n in ast.walk(lp) if isinstance(n, ast.Name) and isinstance(n.ctx, ast.Store) and n.id in params and n.id != U(lp.iter).split('.')[0]})
             rr.ob(f'{name}: the per-call arguments are not rebound inside the per-topic loop', not rebound, mod, lp, witness=', '.join(rebound) or 'none rebound', key=f'params-not-rebound|{name}')
+
+
+@rule('C09.R11', "the cached JPEG that is put on the wire belongs to pixels that cannot have changed since it was made: a read-only array is adopted without a copy only when nothing else can write its memory (shares C10.R11)")
+def r11(rr, repo):
+    from .c10 import r11 as c10r11
+    c10r11(rr, repo)
